@@ -196,16 +196,17 @@ PROPS = {
     ),
     "C17": dict(
         level="other",
-        technique="Kani contract harnesses with real Arc<str> comment sets on Schedule::from_ranges / IntoIter; UniqueSortedVec invariant",
-        level_text="Partial and bounded. 'Sorted, free of duplicates': the UniqueSortedVec invariant, established by From<Vec> (the parser's constructor) and preserved by union (C20 obligations). 'Empty outside the supported date range': schedule_at guard (C08 harness). 'All taken from rules of the expression' / 'a period contributed by exactly one rule carries exactly that rule's comments' at Schedule level: from_ranges gives every output range exactly the given comment set and iteration hands an untouched range's comments through unchanged and gives holes no comments (1 range, real Arc<str> union). The interval-iterator clause and days to which no rule contributes are not decided.",
-        level_note="Bounded: 1 range with a 1-comment set through the real union; insert/addition with comments are out of CBMC's reach (see C14).",
-        explanation="PARTIAL and BOUNDED.",
+        technique="Kani contract harnesses: UniqueSortedVec invariant (From<Vec>, union), schedule_at range guard",
+        level_text="Partial and bounded; only two clauses are decided. 'Sorted, free of duplicates': comment sets are UniqueSortedVec values whose only constructors are From<Vec> (used by the parser) and union (used by Schedule); both are proved to yield strictly increasing, duplicate-free vectors holding exactly the input elements (bounded lengths, instance u8, shared with C20). 'Empty outside the supported date range': schedule_at returns the empty schedule - no ranges, hence no comments - for every date outside 1900..9999 (expression without rules). Which rule's comments a period carries (Schedule::from_ranges / insert / iteration with real Arc<str> sets, the interval iterator) is not decided: every such harness exceeded 24 GB in CBMC.",
+        level_note="The invariant is proved on the u8 instance of the generic code (the comparison is the only type-specific operation). Harnesses with real Arc<str> comments are kept in kani/oh/verif_schedule.rs with tier=off and the measured reason. Neither of the two seeded C17 changes is caught by this check.",
+        explanation="PARTIAL (2 of 5 clauses) and BOUNDED.",
         undecided_clauses=[
+            "'all taken from rules of the expression'; 'an open or unknown period contributed by exactly one rule ... carries exactly that rule's comments' - Schedule-level harnesses with real Arc<str> sets are out of CBMC's reach (> 24 GB)",
             "'range iteration reports for its first interval the comments of the schedule period containing the start instant' (TimeDomainIterator): not decided",
-            "'on days to whose schedule no rule contributes' and comments after Schedule::addition of non-empty schedules: not decided (schedule_at loop / insert out of reach)",
+            "'empty on days to whose schedule no rule contributes': needs the loop of schedule_at: not decided",
         ],
-        trusted_base=_TB_COMMON + ["insertion-sort model of core::slice::sort::unstable::sort"],
-        assumptions=[],
+        trusted_base=_TB_COMMON,
+        assumptions=["generic UniqueSortedVec<T> verified at T = u8"],
     ),
     "C19": dict(
         level="proof",
